@@ -271,6 +271,8 @@ def u_c12x():
     # 5: all targets own, but the second one's marker key exceeds LMDB's key size
     u.add(B, 5, 29, [["e", ("ev", 2)], ["a", ("addr", 30000, B, "k" * 480)]], clen=0)
     u.add(B, 5, 30, [["e", ("ev", 2)]], clen=0)                              # 6 plain own deletion
+    u.add(B, 62, 31, [["relay", "ALL_RELAYS"]], clen=0)                      # 7 a NIP-62 request-to-vanish event (stored like any event)
+    u.add(B, 5, 32, [["e", ("ev", 7)]], clen=0)                              # 8 B deletes its own vanish request (7 is refused afterwards)
     return u.finish()
 
 
@@ -309,6 +311,40 @@ def u_sz():
     return u.finish()
 
 
+def u_c09b():
+    """Address derivation corner cases: several d tags (the first one is the address; all are indexed), no d tag (no address),
+    an empty tag before the d tag, the empty d value, regular and neighbouring kinds carrying the same d value."""
+    u = Universe("c09b", nauthors=2, nabsent=1)
+    A, B = 1, 2
+    u.add(A, 30000, 10, [["d", "x"], ["d", "y"]], clen=5)          # 1 address x (also indexed under y)
+    u.add(A, 30000, 20, [["d", "y"]], clen=6)                      # 2 address y
+    u.add(A, 30000, 15, [["t", "x"]], clen=7)                      # 3 no d tag: no address
+    u.add(A, 30000, 12, [["d", ""]], clen=8)                       # 4 address with the empty d value
+    u.add(A, 30000, 5, [[], ["d", "x"]], clen=9)                   # 5 empty tag before the d tag: address x, older than 1
+    u.add(A, 1, 30, [["d", "x"]], clen=10)                         # 6 regular kind carrying d = x
+    u.add(A, 30001, 30, [["d", "x"]], clen=11)                     # 7 neighbouring kind, same d, newer
+    u.add(A, 30000, 25, [["d", "x"]], clen=12)                     # 8 newer at x
+    u.add(A, 5, 40, [["a", ("addr", 30000, A, "y")]], clen=0)      # 9 deletes address y (not 1, whose address is x)
+    u.add(B, 30000, 11, [["d", "x"]], clen=13)                     # 10 other author at x
+    return u.finish()
+
+
+def u_c10b():
+    """Foreign deletion requests against the legacy replaceable kinds 0 / 3 and against another author's stored
+    deletion request."""
+    u = Universe("c10b", nauthors=2, nabsent=1)
+    A, B = 1, 2
+    u.add(A, 0, 10, [], clen=5)                                              # 1 A's profile
+    u.add(A, 3, 10, [["p", ("pk", B)]], clen=6)                              # 2 A's contact list
+    u.add(B, 5, 30, [["a", ("addr", 0, A, "")]], clen=0)                     # 3 B names A's kind-0 address
+    u.add(B, 5, 31, [["a", ("addr", 3, A, "")]], clen=0)                     # 4 B names A's kind-3 address
+    u.add(A, 5, 20, [["e", ("ev", "absent")]], clen=0)                       # 5 a deletion request by A (stored event of kind 5)
+    u.add(B, 5, 32, [["e", ("ev", 5)]], clen=0)                              # 6 B names A's stored deletion request
+    u.add(B, 0, 11, [], clen=7)                                              # 7 B's own profile
+    u.add(B, 5, 33, [["a", ("addr", 0, B, "")], ["e", ("ev", 5)]], clen=0)   # 8 own address first, then A's deletion request
+    return u.finish()
+
+
 def u_c11b():
     """Deletion requests with several targets where an earlier-listed address is already covered, and addresses
     whose d value contains the ':' separator."""
@@ -322,6 +358,8 @@ def u_c11b():
     u.add(A, 5, 25, [["a", ("addr", 30000, A, "x")]], clen=0)                                # 6 deletes x as of 25
     u.add(A, 5, 15, [["a", ("addr", 30000, A, "x")], ["e", ("ev", 5)], ["a", ("addr", 30000, A, "u")]], clen=0)  # 7 x (older), then 5 and u
     u.add(A, 5, 25, [["a", ("addr", 30000, A, "x")], ["e", ("ev", 5)]], clen=0)              # 8 x (same time as 6), then 5
+    u.add(A, 30000, 1900000050, [["d", "z"]], clen=9)                                        # 9 dated far in the future
+    u.add(A, 5, 1900000100, [["a", ("addr", 30000, A, "z")]], clen=0)                        # 10 deletes z as of a time beyond it
     return u.finish()
 
 
@@ -343,6 +381,7 @@ def u_c18():
     u.add(B, 20001, 19, [["t", "x"]], clen=1)                                  # 11 ephemeral by B
     u.add(A, 1, 20, [["e", "x"], ["q", "x"], ["t", "x"], ["-"], ["r", "y"]], clen=2)  # 12 same value under several letters; a name-only tag before another tag
     u.add(B, 1059, 21, [["p", ("pk", C)], ["p", ("pk", A)]], clen=3)                  # 13 gift-wrap naming A in a second p tag
+    u.add(C, 1, 1900000000, [["t", "y"]], clen=4)                                     # 14 dated in the future
     return u.finish()
 
 
@@ -367,6 +406,7 @@ def u_q():
     u.add(B, 1, 12, [["t", "x"], ["t", "x"]], clen=15)                     # 14 repeated identical tag
     u.add(A, 30000, 12, [["d", "y"], ["t", "y"]], clen=16)                 # 15 same author and kind as 7/8, other d value
     u.add(B, 1, 1900000000, [["t", "x"]], clen=17)                         # 16 dated in the future
+    u.add(B, 1, 11, [["t", "x"], ["tt", "y"]], clen=18)                    # 17 same second as 3 (which is reachable through both t values)
     u.s("zz")   # a value no event has
     u.s("w")    # a tag letter no event has
     return u.finish()
@@ -389,10 +429,12 @@ def u_c16():
     u.add(B, 1, 11, [["t", "x"], ["expiration", "5"]], clen=2000)                   # 9 large regular event, NIP-40 expiration long past
     u.add(A, 30000, 10, [["d", "x:y"]], clen=3)                                     # 10 d containing the address separator
     u.add(A, 5, 24, [["a", ("addr", 30000, A, "x:y")], ["a", ("addr", 30000, A, ":")]], clen=0)  # 11 markers for d = "x:y" and ":"
+    u.add(A, 10002, 10, [], clen=4)                                                 # 12 a replaceable event ...
+    u.add(A, 5, 20, [["a", ("addr", 10002, A, "xyz")]], clen=0)                     # 13 ... and a marker naming its kind with a NON-empty d
     return u.finish()
 
 
-CURATED = dict(c16=u_c16, c11b=u_c11b, c12x=u_c12x, sz=u_sz, core=u_core, c09=u_c09, c10=u_c10, c11=u_c11, c18=u_c18, q=u_q)
+CURATED = dict(c16=u_c16, c11b=u_c11b, c12x=u_c12x, c09b=u_c09b, c10b=u_c10b, sz=u_sz, core=u_core, c09=u_c09, c10=u_c10, c11=u_c11, c18=u_c18, q=u_q)
 
 
 # ------------------------------------------------------------------------------------------------
